@@ -470,6 +470,7 @@ def reload_phase(ctx, rng, w, ops, real, pks):
     with db_session:
         loaded = [None if pk is None else type(o)[pk] for o, pk in zip(w.objs, pks)]
         live = [i for i, o in enumerate(loaded) if o is not None]
+        reads = []
         # partial loads through the public API
         for _ in range(rng.choice([0, 1, 2, 4, 8])):
             if not live: break
@@ -489,9 +490,9 @@ def reload_phase(ctx, rng, w, ops, real, pks):
                     else:
                         t = [j for j in live if expect[j]['ent'] == w.side(w.rev(key))['ent']]
                         if t: loaded[rng.choice(t)] in c
-                    ctx.count('reload:read:' + how)
+                    ctx.count('reload:read:' + how); reads.append([i, list(key), how])
                 else:
-                    getattr(o, name); ctx.count('reload:read:ref')
+                    getattr(o, name); ctx.count('reload:read:ref'); reads.append([i, list(key), 'get'])
             except Exception as e:
                 ctx.divergence('reading committed data raised', {'schema': w.schema, 'ops': ops, 'read': [i, list(key)]}, impl=type(e).__name__)
                 w.objs = old_objs
@@ -518,7 +519,10 @@ def reload_phase(ctx, rng, w, ops, real, pks):
                     ok = got == exp
                 ctx.case({'reload': [i, list(key)], 'full': full, 'n': len(got)}, nontrivial=False, kind='reload-cell')
                 if not ok:
-                    ctx.divergence('loaded relationship value differs from the committed session state', {'schema': w.schema, 'ops': ops, 'cell': [i, list(key)]}, model=exp, impl=got)
+                    # oracle on the real code alone: what the committing session showed on both ends vs what the next session loads
+                    ctx.violation('a value loaded from the database is not what both ends showed in the committing session',
+                                  {'schema': w.schema, 'ops': ops, 'reads': reads, 'cell': [i, list(key)]}, observed=got, expected=exp,
+                                  key='reload:loaded-item-not-in-committed-state:' + w.relkind(key))
                 for qi in got:
                     if qi < 0: continue
                     q = loaded[qi]
